@@ -175,8 +175,14 @@ func runC11(c *Ctx) {
 			if !ok || len(r.Results) != 2 {
 				return false
 			}
-			o := objOf(info, r.Results[0])
-			return o != nil && o.Name() == "canonical"
+			// the registered instance: a local read from the tree node (node.value())
+			id, ok := ast.Unparen(r.Results[0]).(*ast.Ident)
+			if !ok {
+				return false
+			}
+			def := singleLocalDefIn(info, ap.Decl.Body, info.ObjectOf(id))
+			call, ok := def.(*ast.CallExpr)
+			return ok && callee(info, call) == c.FuncObj("actor", "pidNode.value")
 		}
 		rc := f.Find(retCanonical)
 		c.Check(len(rc) == 1, "returns-canonical", "on errNodeAlreadyExists the registered (canonical) instance is returned instead of the duplicate", c.P.Pos(ap.Decl.Pos()), "")
@@ -253,7 +259,16 @@ func runC11(c *Ctx) {
 				return false
 			}
 			id, ok := cl.Fun.(*ast.Ident)
-			return ok && id.Name == "fn"
+			if !ok {
+				return false
+			}
+			ps := ra.Obj.Type().(*types.Signature).Params()
+			for i := 0; i < ps.Len(); i++ {
+				if _, isFn := ps.At(i).Type().Underlying().(*types.Signature); isFn && f.Info.ObjectOf(id) == types.Object(ps.At(i)) {
+					return true
+				}
+			}
+			return false
 		}
 		w := f.search(searchSpec{avoidEdges: byp, target: direct})
 		c.Check(w == nil, "bypass-only-empty-key", "the spawn closure runs outside the single flight only for an empty key", c.P.Pos(ra.Decl.Pos()), f.describe(w))
